@@ -30,12 +30,23 @@ def corpus_plan(tier):
     ]
 
 
+def extra_plan(tier):
+    """(label, corpus name in progcheck.CORPORA, max variants): operation families added after the first session - composite
+    and two-step programs whose last collection is compared with the denotation (the prefixes are depth-1 programs)"""
+    q = tier == "quick"
+    return [("scan-long", "d1-scan-long", 4), ("reduce-long", "d1-red-long", 4), ("einsum", "d2-einsum", 4), ("join", "d1-join", 2 if q else 4),
+            ("map-overlap", "d1-overlap", 16 if q else 128), ("index-none", "d1-index-none", 2 if q else 8), ("advindex", "d1-advindex", 2 if q else 16),
+            ("map-blocks", "d1-mapplain", 4), ("diagonal", "d1-diag", 4 if q else 16)]
+
+
 def classify(chk, out, label):
     declined = 0
     for case, clause in out.violations:
         if clause == "declined":
             declined += 1
             continue
+        if clause == "invalid-operation-did-not-raise":
+            continue        # what must raise is C12's subject; C01 is about programs that have a NumPy value
         chk.violation(dict(case, corpus=label), clause)
     return declined
 
@@ -44,7 +55,13 @@ def run(chk):
     rd = tlc.new_rundir("C01")
     try:
         flip_checked = False
-        for label, kw, maxvar in corpus_plan(chk.tier):
+        from .. import progcheck
+
+        plan = list(corpus_plan(chk.tier))
+        for label, name, maxvar in extra_plan(chk.tier):
+            kw, flags = progcheck.corpus_kwargs(name)
+            plan.append((label, kw, maxvar))
+        for label, kw, maxvar in plan:
             behs, res = replay.generate_programs(rundir=rd, timeout=3000, **kw)
             chk.add_tlc(res, f"gen:{label}")
             out = replay.run_corpus(behs, observers=(), max_variants=maxvar, seed=chk.seed)
@@ -70,14 +87,16 @@ def run(chk):
                            "instance of every action: all basic indices, elemwise/unary ops, casts, transposes, reshapes, "
                            "expand/squeeze, flip/roll, concatenate/stack, rechunk to every grid, every reduction x axes x keepdims x "
                            "split_every, arg-reductions, scans (both methods), diff, where, take, broadcast_to, sliding windows "
-                           "alone and reduced, dot, pad, repeat, tile, topk) x the chunk grids of the source (all of them when no "
+                           "alone and reduced, dot, pad incl. callable mode, repeat, tile, topk; plus scans / reductions over 9..33 unit blocks, two "
+                           "einsum patterns, joins of two elementwise branches, map_overlap stencils, multi-None indices, advanced indices, "
+                           "diagonals, plain map_blocks) x the chunk grids of the source (all of them when no "
                            "more than the variant cap, else a seeded sample); distinct = distinct programs; each replayed into "
                            "dask_array and the computed value, shape, dtype of the new collection compared with the TLC-computed "
                            "denotation (NumPy as second oracle)")
         chk.assumptions += ["depth 1 only: compositions of operations are covered by the rewrite/optimizer properties, not here; "
                             "TLC simulation of deeper programs (tools/explore_sim.py) is an exploration aid, not part of this check",
                             "operation families without a TLA+ denotation (fft, linalg decompositions, percentile, histogram, "
-                            "einsum, gufunc, random distributions, setitem, map_blocks) are not covered",
+                            "general einsum, gufunc, random distributions) are not covered here; setitem, block_info, random are C11 / C20 / C23",
                             "where NumPy itself raises, only indexing is required to raise (C12); other operations are not judged",
                             "float results compared with rtol 1e-9; integer/bool results exactly"]
     finally:
